@@ -1071,14 +1071,14 @@ let run_c13 file =
   let n = ref 0 and n_dis = ref 0 and n_fail = ref 0 and n_get = ref 0 and n_seq = ref 0 and n_foreign = ref 0 in
   let ic = open_in file in
   let id = ref "" and base = ref None and blocks = ref [] and gets = ref [] and vok = ref false and reg = ref []
-  and seq_bad = ref [] and base_changed = ref false and foreign_bad = ref [] and parse_err = ref false in
+  and seq_bad = ref [] and base_changed = ref false and foreign_bad = ref [] and equiv_bad = ref [] and parse_err = ref false in
   (try
      while true do
        let line = input_line ic in
        let t = Array.of_list (String.split_on_char ' ' line) in
        match t.(0) with
        | "ocase" -> id := t.(1); base := None; blocks := []; gets := []; vok := false; reg := []; seq_bad := [];
-         base_changed := false; foreign_bad := []; parse_err := false
+         base_changed := false; foreign_bad := []; equiv_bad := []; parse_err := false
        | "oparse" -> parse_err := true
        | "oregistered" -> reg := List.map unhex (List.tl (Array.to_list t))
        | "obase" -> base := Some (parse_value t (ref 1))
@@ -1088,6 +1088,7 @@ let run_c13 file =
        | "oseq" -> incr n_seq; if t.(2) <> "1" then seq_bad := unhexs t.(1) :: !seq_bad
        | "obaseafter" -> if t.(1) <> "1" then base_changed := true
        | "oforeign" -> if int_of_string t.(2) > 0 then incr n_foreign; if t.(4) <> "1" then foreign_bad := unhexs t.(1) :: !foreign_bad
+       | "oequiv" -> if t.(2) <> "1" then equiv_bad := (unhexs t.(1) ^ " (" ^ (if Array.length t > 3 then unhexs t.(3) else "") ^ ")") :: !equiv_bad
        | "oend" ->
          incr n;
          (match !base with
@@ -1103,12 +1104,13 @@ let run_c13 file =
             let names = names
                         @ List.map (fun f -> "get-depends-on-history:" ^ f) (List.sort_uniq compare !seq_bad)
                         @ (if !base_changed then ["get-changed-the-configuration"] else [])
-                        @ List.map (fun f -> "foreign-entry-in-package:" ^ f) !foreign_bad in
+                        @ List.map (fun f -> "foreign-entry-in-package:" ^ f) !foreign_bad
+                        @ List.map (fun f -> "override-block-differs-from-the-same-settings-at-the-top:" ^ f) !equiv_bad in
             let mnames = List.map (fun (f, _) -> "model-of-merge:" ^ implode f) model_diff in
             (* known finding: every property-level difference is one the model of the code reproduces, i.e. the
                empty-map-value rule (the only place where model and property reading differ) *)
             let only_effective = List.for_all (function OEffective _ -> true | _ -> false) clauses
-                                 && !seq_bad = [] && not !base_changed && !foreign_bad = [] in
+                                 && !seq_bad = [] && not !base_changed && !foreign_bad = [] && !equiv_bad = [] in
             let kf = if clauses <> [] && only_effective && model_diff = [] then ["override-empty-map-value"] else [] in
             if names <> [] || mnames <> [] then begin
               incr n_fail; if kf = [] then incr n_dis;
